@@ -421,6 +421,9 @@ parse_next_record_header:
         /* Parse handshake messages until buffer runs out */
         while (p != end)
         {
+            /* progress is checked per message (a trailing partial
+               handshake header must not spin here forever) */
+            p_start = p;
             rc = tls13ParseHandshakeMessage(ssl,
                     &p, end);
             if (rc < 0)
